@@ -1,6 +1,6 @@
 (* C41 — obligations on the generated schema, the oracle theorem, refutations. *)
 From Coq Require Import List ZArith Bool String Lia.
-From OV Require Import C41.Schema Gen.C41Schema C41.SchemaProofs C41.Model.
+From OV Require Import C41.Schema Gen.C41Schema C41.SchemaProofs C41.Erase C41.Model.
 Import ListNotations.
 Open Scope list_scope.
 Open Scope Z_scope.
@@ -81,23 +81,44 @@ Proof.
   exists y. split; [exact Hy|]. apply (roundtrip cfg_schema gen_schema_ok FUEL _ _ _ Hty Hwt Hy).
 Qed.
 
+(* ... and ANY well-formed configuration, whatever its skipped fields hold, is read back with exactly
+   the skipped fields (the thumbprint caches) reset *)
+Theorem save_load_erases c : wt cfg_schema false FUEL (root c) (c_val c) = true ->
+  exists y, ser cfg_schema FUEL (root c) (c_val c) = Some y /\
+            de cfg_schema FUEL (root c) y = Some (erase cfg_schema FUEL (root c) (c_val c)).
+Proof.
+  intro Hwt. destruct (root_ok c) as [Hty Hno].
+  destruct (ser_total cfg_schema gen_schema_ok false FUEL (root c) (c_val c) Hwt Hno) as [y Hy].
+  exists y. split; [exact Hy|]. apply (reload_is_erase cfg_schema gen_schema_ok FUEL _ _ _ Hty Hwt Hy).
+Qed.
+
 Theorem oracle_holds c : valid c -> known c = 0 -> oracle c (run c) = true.
 Proof.
   unfold valid, known. intros Hin Hk. unfold oracle. rewrite Hin. cbn [negb].
   unfold inscope in Hin. repeat (apply andb_true_iff in Hin as [Hin ?]).
-  rename H into Hnan, H0 into Hwt, H1 into Hkind. rename Hin into Hvalid.
+  rename H into Hnan, H0 into Hwt, H1 into Hkind, H2 into Hm. rename Hin into Hvalid.
   change only_thumbprint_skipped with true in Hk. rewrite Hwt in Hk. cbn [andb] in Hk.
   destruct (wt cfg_schema true FUEL (root c) (c_val c)) eqn:Hwt1; [|discriminate Hk].
   destruct (save_load_roundtrip c Hwt1) as (y & Hy & Hde).
-  unfold run, run_with. rewrite Hvalid. cbn [negb]. rewrite Hy, Hde.
-  cbn [list_eqb Z.eqb negb andb].
-  rewrite val_eqb_refl. apply negb_true_iff in Hnan. rewrite Hnan. reflexivity.
+  unfold run, run_with. rewrite Hvalid, Hm. cbn [Bool.eqb negb]. rewrite Hy, Hde.
+  rewrite val_eqb_refl, Hm. apply negb_true_iff in Hnan. rewrite Hnan. reflexivity.
+Qed.
+
+(* the loaded configuration is still valid: is_valid (as modelled) of what is read back from the file
+   is is_valid of the original *)
+Theorem loaded_still_valid c y v' : wt cfg_schema true FUEL (root c) (c_val c) = true ->
+  ser cfg_schema FUEL (root c) (c_val c) = Some y -> de cfg_schema FUEL (root c) y = Some v' ->
+  is_valid_m (c_kind c) v' = is_valid_m (c_kind c) (c_val c).
+Proof.
+  intros Hwt Hy Hde. destruct (save_load_roundtrip c Hwt) as (y0 & Hy0 & Hde0).
+  rewrite Hy in Hy0. injection Hy0 as <-. rewrite Hde in Hde0. injection Hde0 as ->. reflexivity.
 Qed.
 
 (* `save` as it is now never panics: every outcome is refused / Err / written *)
 Theorem never_panics c : run c <> [-2].
 Proof.
   unfold run. change save_unwraps_serializer with false. unfold run_with.
+  destruct (negb (Bool.eqb (c_is_valid c) (is_valid_m (c_kind c) (c_val c)))); [discriminate|].
   destruct (negb (c_is_valid c)); [discriminate|].
   destruct (ser cfg_schema FUEL (root c) (c_val c)); discriminate.
 Qed.
@@ -116,6 +137,12 @@ Definition server0 (pki tp : val) : val :=
       VM [(zs "none", VR [s "/"; s "None"; s "None"; VZ 0; VO None; VL [s "ANONYMOUS"; s "u1"]])]].
 
 Definition w_thumb : case := mk_case 1 (server0 (s "pki") (VO (Some (VL [VZ 7; VZ 7])))) true.
+(* the witness of known finding 1: what comes back is the configuration with the cache cleared; it is
+   a valid configuration *)
+Example thumb_reload :
+  erase cfg_schema FUEL (root w_thumb) (c_val w_thumb) = server0 (s "pki") (VO None) /\
+  is_valid_m 1 (server0 (s "pki") (VO None)) = true.
+Proof. split; vm_compute; reflexivity. Qed.
 Lemma known_1_refuted : exists c, known c = 1 /\ valid c /\ oracle c (run c) = false.
 Proof. exists w_thumb. repeat split; vm_compute; reflexivity. Qed.
 
